@@ -141,6 +141,7 @@ def run(ctx):
     real_ntlm(ctx)
     stripped_handshakes(ctx)
     fragments(ctx)
+    after_rejection(ctx)
 
 
 def pick(alts, k):
@@ -242,6 +243,72 @@ def fragments(ctx):
                             return
 
 
+
+def after_rejection(ctx):
+    """a connection that has just rejected a reply (bad signature, wrong trailer, cleartext) is still an authenticated connection: the next
+    request on the SAME client object must again go out sealed, and a cleartext reply to it must again be refused — whatever the error
+    path did to the client's state (both clients)"""
+    from dpapi_ng import _rpc as r
+    from dpapi_ng._rpc import _request
+    evil = b"KEY MATERIAL CHOSEN BY THE ADVERSARY"
+    clear = rpcfmt.finalize(_request.Response(header=r.PDUHeader(5, 0, r.PacketType.RESPONSE, r.PacketFlags(3), r.DataRep(), 0, 0, 2), sec_trailer=None,
+                                               alloc_hint=len(evil), context_id=0, cancel_count=0, stub_data=evil))
+    clear1 = clear[:12] + (1).to_bytes(4, "little") + clear[16:]
+    for header_len in (16, 28):
+        for sign in (False, True):
+            good, _ = rpcsim.sealed_response(bytes(range(32)), header_len, sign)
+            bad_kinds = {"bit flipped in the body": good[:30] + bytes([good[30] ^ 1]) + good[31:],
+                         "bit flipped in the signature": good[:-1] + bytes([good[-1] ^ 0x80]),
+                         "cleartext": clear1}
+            for kind, first in bad_kinds.items():
+                for second_call_id in (2, 1):
+                    second = clear if second_call_id == 2 else clear1
+                    for use_async in (False, True):
+                        auth = rpcfmt.ScriptedProvider(header_len=header_len)
+                        got = {"first": None, "second": None, "wire2": None}
+
+                        def drive_sync():
+                            sock = rpcsim.FakeSocket(replies=[first, second])
+                            c = rpcsim.sync_client(sock, auth)
+                            c._sign_header = sign
+                            try:
+                                got["first"] = bytes(c.request(0, 0, b"one").stub_data)
+                            except Exception as e:  # noqa
+                                got["first"] = "err " + canon_exc(e)
+                            try:
+                                got["second"] = bytes(c.request(0, 0, b"SECRET REQUEST STUB").stub_data)
+                            finally:
+                                got["wire2"] = sock.sent[-1] if len(sock.sent) > 1 else None
+
+                        async def drive_async():
+                            reader = asyncio.StreamReader()
+                            pending = [first, second]
+                            w = rpcsim.FakeWriter(lambda data: reader.feed_data(pending.pop(0)) if pending else reader.feed_eof())
+                            c = rpcsim.async_client(reader, w, auth)
+                            c._sign_header = sign
+                            try:
+                                got["first"] = bytes((await asyncio.wait_for(c.request(0, 0, b"one"), 2)).stub_data)
+                            except Exception as e:  # noqa
+                                got["first"] = "err " + canon_exc(e)
+                            try:
+                                got["second"] = bytes((await asyncio.wait_for(c.request(0, 0, b"SECRET REQUEST STUB"), 2)).stub_data)
+                            finally:
+                                got["wire2"] = w.sent[-1] if len(w.sent) > 1 else None
+                        try:
+                            asyncio.run(drive_async()) if use_async else drive_sync()
+                        except Exception:  # noqa  (an error on the second request is the right outcome)
+                            pass
+                        ctx.count("after_rejection:" + kind)
+                        inp = {"scenario": "after_rejection", "first_reply": kind, "header_len": header_len, "sign": sign, "async": use_async}
+                        if isinstance(got["second"], bytes) and evil in got["second"]:
+                            ctx.violation("after a rejected reply, a stub chosen by a party without the session key is returned on the same authenticated connection",
+                                          inp, hx(got["second"])[:80], "error")
+                            return
+                        if got["wire2"] is not None and b"SECRET REQUEST STUB" in got["wire2"]:
+                            ctx.violation("after a rejected reply, the next request on the same authenticated connection goes out unsealed", inp, hx(got["wire2"])[:120], "a sealed request (or an error)")
+                            return
+
+
 def real_ntlm(ctx):
     """the same alterations against a real NTLM security context pair from pyspnego (in-process)"""
     import os, tempfile, spnego
@@ -313,6 +380,12 @@ def replay(ctx, payload):
     if v.get("scenario") == "stripped_handshakes":
         c2 = type(ctx)(ctx.prop, "quick", ctx.seed)
         stripped_handshakes(c2)
+        for x in c2.violations[:3]:
+            print(" ", x["what"], x["input"], x["observed"][:60])
+        return not c2.violations
+    if v.get("scenario") == "after_rejection":
+        c2 = type(ctx)(ctx.prop, "quick", ctx.seed)
+        after_rejection(c2)
         for x in c2.violations[:3]:
             print(" ", x["what"], x["input"], x["observed"][:60])
         return not c2.violations
